@@ -75,6 +75,14 @@ def tainted_everywhere(b):
             'kwargs': bool(live) and all(t['hide_kwargs'] for t in live)}
 
 
+def broken_star(b, j):
+    """Call j unpacks a star the program rebound to a function or class: every execution
+    raises TypeError whatever the caller passes; only clause (B) applies."""
+    ts = progs.taint_state(b.prog, j)
+    c = b.prog['calls'][j]
+    return ('own' in c['sa'] and ts['args'][1] == 'broken') or ('own' in c['sk'] and ts['kwargs'][1] == 'broken')
+
+
 def dead_call(b, c):
     """The written part of the call can never bind to its callee, whatever the star-arguments
     hold: every execution of that branch raises TypeError, so the function honours no call at
@@ -242,6 +250,9 @@ def check_prog(prog, stats, executed_cap=400):
         BUDGET = 600
         for sel in range(b.nsel()):
             calls = [prog['calls'][sel]] if b.nsel() > 1 else prog['calls']
+            if any(broken_star(b, prog['calls'].index(c)) for c in calls):
+                stats.cls('branch/broken (a star rebound to something that cannot be unpacked)')
+                continue
             if any(dead_call(b, c) for c in calls):
                 stats.cls('branch/dead (the written call can never bind to its callee)')
                 continue
